@@ -394,4 +394,4 @@ PLANS['C09'] = Plan(
 )
 
 NOT_APPLICABLE = {}
-FIX_COMMITS = ['a1f5353', '24a396c', 'd3d25c6', '9ca2be3', 'e4731ef', '77613ad', 'f7d663a', 'd05bf62']
+FIX_COMMITS = ['a1f5353', '24a396c', 'd3d25c6', '9ca2be3', 'e4731ef', '77613ad', 'f7d663a', 'd05bf62', '5771382']
